@@ -97,10 +97,10 @@ func (c vVecCfg) NewWith(train [][]float32) (VectorIndex, error) {
 	if c.Kind == "ivf" || c.Kind == "pq" || c.Kind == "ivfpq" {
 		ts := train
 		if ts == nil && c.Train == -4 {
-			ts = vLattice(c.Dim, 4*c.NList) // many clusters: a lattice of 4*nlist points
+			ts = vXFVecs(vLattice(c.Dim, 4*c.NList)) // many clusters: a lattice of 4*nlist points
 		}
 		if ts == nil {
-			ts = vTrainSet(c.Dim, c.Train)
+			ts = vXFVecs(vTrainSet(c.Dim, c.Train))
 		}
 		nodes := make([]VectorNode, len(ts))
 		for i, v := range ts {
@@ -432,6 +432,14 @@ func newKindSys(c *vCtx, cfg vVecCfg, nids int) *vKindSys {
 			qa[i] = w
 		}
 	}
+	if vXF.active() {
+		s.cfgS += vXFTag()
+		s.vals = vXFVecs(s.vals)
+		qa = vXFVecs(qa)
+		for i := range thr {
+			thr[i] = vXFScalar(thr[i], cfg.Metric)
+		}
+	}
 	s.qa = qa
 	for _, q := range qa {
 		for _, k := range []int{-1, 1, 2} {
@@ -756,11 +764,11 @@ func (s *vKindSys) observeDerived(h []string) {
 	near := vCopyVec(s.m.live[ids[len(ids)/2]])
 	for j := range near {
 		if j < 4 {
-			near[j] += 0.3
+			near[j] += float32(math.Ldexp(0.3, vXF.Exp))
 		}
 	}
 	if len(near) < 4 {
-		near[0] += 0.3
+		near[0] += float32(math.Ldexp(0.3, vXF.Exp))
 	}
 	for _, q := range [][]float32{near, s.qa[1]} {
 		if s.cfg.Metric == Cosine && vIsZero(q) {
@@ -1093,7 +1101,7 @@ func vKindSweep(c *vCtx, cfg vVecCfg, maxN int, hook func(s *vKindSys, h []strin
 			if pattern > 0 {
 				s.cfgS += fmt.Sprintf(" pattern=%d", pattern)
 			}
-			s.vals = vStructuredVecs(cfg.Dim, n+2)
+			s.vals = vXFVecs(vStructuredVecs(cfg.Dim, n+2))
 			s.hook = hook
 			s.derived = true
 			s.noMulti = n > 12
@@ -1166,7 +1174,7 @@ func vKindLarge(c *vCtx, cfg vVecCfg, sizes []int, hook func(s *vKindSys, h []st
 		}
 		s := newKindSys(c, cfg, 3)
 		s.cfgS += fmt.Sprintf(" large n=%d", n)
-		s.vals = vStructuredVecs(cfg.Dim, n+1)
+		s.vals = vXFVecs(vStructuredVecs(cfg.Dim, n+1))
 		s.hook = hook
 		s.derived = true
 		s.noMulti = true
@@ -1180,6 +1188,7 @@ func vKindLarge(c *vCtx, cfg vVecCfg, sizes []int, hook func(s *vKindSys, h []st
 		case Cosine:
 			thr = 0.35
 		}
+		thr = vXFScalar(thr, cfg.Metric)
 		probes := []int{0}
 		if cfg.Kind == "ivf" || cfg.Kind == "ivfpq" {
 			probes = []int{0, -1, 1, 2}
@@ -1431,6 +1440,19 @@ func init() {
 				sh = append(sh, vShard{Name: "sweep/" + strings.ReplaceAll(cfg.String(), " ", ","), Run: func(c *vCtx) { vKindSweep(c, cfg, maxN, nil) }})
 				sh = append(sh, vShard{Name: "large/" + strings.ReplaceAll(cfg.String(), " ", ","), Run: func(c *vCtx) { vKindLarge(c, cfg, vLargeSizes(tier), nil) }})
 				sh = append(sh, vShard{Name: "endurance/" + strings.ReplaceAll(cfg.String(), " ", ","), Run: func(c *vCtx) { vKindEndurance(c, cfg, 70000, nil) }})
+				if cfg.Dim <= 4 || cfg.Kind == "pq" {
+					for _, x := range vXFs {
+						x := x
+						if cfg.Metric == Cosine && x.Off != 0 {
+							continue // a common offset makes all directions alike: nothing to judge
+						}
+						sh = append(sh, vShard{Name: fmt.Sprintf("xf/%g:%d/%s", x.Off, x.Exp, strings.ReplaceAll(cfg.String(), " ", ",")), Run: func(c *vCtx) {
+							defer vXFSet(x, cfg.Metric)()
+							vBFS(c, newKindSys(c, cfg, 3), 3)
+							vKindSweep(c, cfg, 24, nil)
+						}})
+					}
+				}
 				for _, base := range vIDBases {
 					base := base
 					if base == math.MaxUint32 && cfg.Kind == "hnsw" {
@@ -1447,6 +1469,8 @@ func init() {
 			return sh
 		},
 		Replay: func(c *vCtx, v *vViolation) bool {
+			defer vXFParse(v.Config, vParseVecCfg(v.Config).Metric)()
+			v.Config = vXFStrip(v.Config)
 			if i := strings.Index(v.Config, " idbase="); i >= 0 {
 				var b uint32
 				fmt.Sscanf(v.Config[i:], " idbase=%d", &b)
